@@ -370,7 +370,7 @@ def check_C02(ctx):
     planner_family(ctx, "C02")
     exec_family(ctx, "C02", extra=["--pdep", 0.5, "--ppanic", 0.2], mc=("deps",), mc_thorough=("flat2",))
     exec_s2i(ctx, "C02", maxforce=1500 if ctx.quick() else 17000)
-    async_stage(ctx, ["InvC02x"], 50 if ctx.quick() else 500, extra=["--ppanic", 0.35, "--pdep", 0.5, "--nmax", 18])
+    async_stage(ctx, ["InvC02x"], 100 if ctx.quick() else 800, extra=["--ppanic", 0.35, "--pdep", 0.5, "--nmax", 18])
 
 
 def check_C03(ctx):
